@@ -89,6 +89,44 @@ def boundary_values(T, rnd):
     return []
 
 
+def bad_values(T, rnd):
+    """(label, value) pairs that lie outside wire type T: typed instances (which bypass coercion) and plain values"""
+    import enum
+    import zigpy.types as zt
+    from zigpy_zboss.types import basic
+    out = []
+    if not isinstance(T, type) or issubclass(T, enum.Enum):
+        return out
+    if issubclass(T, (zt.EUI64, zt.KeyData)) or issubclass(T, basic.FixedList):
+        n = 8 if issubclass(T, zt.EUI64) else 16 if issubclass(T, zt.KeyData) else T._length
+        item = getattr(T, "_item_type", zt.uint8_t)
+        good = [gen.gen(item, rnd) for _ in range(n)]
+        out.append(("typed, one item short", T(good[:-1])))
+        out.append(("typed, one item too many", T(good + good[:1])))
+        out.append(("plain list, one item short", list(good[:-1])))
+        if issubclass(item, zt.FixedIntType) and not issubclass(item, enum.Enum):
+            lo, hi = gen.int_bounds(item)
+            out.append(("typed, item out of range", T(good[:-1] + [hi + 1])))
+    elif issubclass(T, zt.LVBytes):
+        out.append(("typed, 256 bytes behind a 1-byte length", T(bytes(256))))
+        out.append(("plain bytes, 256 bytes behind a 1-byte length", bytes(256)))
+    elif issubclass(T, basic.LVList):
+        item = T._item_type
+        hdr = getattr(T, "_header", zt.uint8_t)
+        if hdr._size == 1:
+            out.append(("typed, 256 items behind a 1-byte count", T([gen.gen(item, rnd) for _ in range(256)])))
+        if issubclass(item, zt.FixedIntType) and not issubclass(item, enum.Enum):
+            lo, hi = gen.int_bounds(item)
+            out.append(("typed, item out of range", T([hi + 1])))
+            out.append(("plain list, item out of range", [lo - 1]))
+    elif issubclass(T, zt.List):
+        item = T._item_type
+        if issubclass(item, zt.FixedIntType) and not issubclass(item, enum.Enum):
+            lo, hi = gen.int_bounds(item)
+            out.append(("typed, item out of range", T([gen.gen(item, rnd), hi + 1])))
+    return out
+
+
 def run(ctx):
     import zigpy.types as zt
     import enum
@@ -141,6 +179,18 @@ def run(ctx):
                 lines.append("enc %d %s" % (idx, " ".join(strs)))
                 metas.append(("refuse", idx, (p.name, bad), refused, strs))
             break   # one integer field per class keeps the volume down
+        # refusal: values outside list / byte-string / fixed-size types, typed (no coercion) and plain
+        for p in cls.schema:
+            for label, bad in bad_values(p.type, r):
+                base = gen.gen_cmd(cls, r, nopt=nopts)
+                kw = {q.name: getattr(base, q.name) for q in cls.schema}
+                kw[p.name] = bad
+                try:
+                    cls(**kw)
+                    refused = False
+                except (ValueError, KeyError):
+                    refused = True
+                metas.append(("refuse2", idx, (p.name, label, type(bad).__name__, len(bad)), refused, None))
     ans = ctx.driver.ask(lines) if ctx.driver else None
     pos = 0
     for m in metas:
@@ -176,6 +226,15 @@ def run(ctx):
                 if ans[pos + 1] != impl_dec:
                     ctx.mismatch("dec", dict(cls=tab[idx][1], payload=hx(body[4:])), ans[pos + 1], impl_dec)
             pos += 2
+        elif m[0] == "refuse2":
+            _, idx, (pname, label, tname, n), refused, _ = m
+            ctx.case((idx, pname, label), sample=dict(cls=tab[idx][1], param=pname, value=label, refused=refused))
+            ctx.count("refusal-probe-" + label.split(",")[0])
+            if not refused:
+                ctx.counterexample("out-of-range-accepted",
+                                   dict(cls=tab[idx][1], param=pname, value="%s (%s of %d items)" % (label, tname, n)),
+                                   "refused at construction", "accepted",
+                                   "a parameter value outside its type's range is accepted at construction")
         else:
             _, idx, (pname, bad), refused, strs = m
             ctx.case((idx, pname, bad), sample=None)
